@@ -229,7 +229,11 @@ def run(r):
         text = "\n".join(l.split("\t")[0] for l in lines) + "\n"
         if cases_text is None:
             cases_text = text
-            model = r.driver("drive_c11", text)
+            try:
+                model = r.driver("drive_c11", text)
+            except Exception as e:   # the oracle must still run
+                r.broken.append(f"model driver failed: {type(e).__name__}: {str(e)[:200]}")
+                model = None
             if model is None or len(model) != len(lines):
                 r.broken.append("model driver output does not line up with the harness cases")
                 model = None
